@@ -86,15 +86,24 @@ def main():
 
     # --------------------------------------------- tables vs real KTHierarchy
     systems = {}
-    for (N, D), row in sorted(tables.items()):
+    # (for an odd number of baths the depths are requested in DESCENDING
+    # order from ONE aggregate through its own entry point get_KTHierarchy;
+    # otherwise ascending through the constructor)
+    for (N, D), row in sorted(tables.items(),
+                              key=lambda kv: (kv[0][0], -kv[0][1]
+                                              if kv[0][0] % 2 else kv[0][1])):
         if N not in systems:
             agg, ta = build(N, J=30.0,
                             cortime=[40.0 + 17 * i for i in range(N)],
                             reorg=[20.0 + 7 * i for i in range(N)])
             systems[N] = (agg.get_Hamiltonian(),
-                          agg.get_SystemBathInteraction())
-        ham, sbi = systems[N]
-        Hy = hierarchy(ham, sbi, D)
+                          agg.get_SystemBathInteraction(), agg)
+        ham, sbi, agg_n = systems[N]
+        if N % 2:
+            with contextlib.redirect_stdout(io.StringIO()):
+                Hy = agg_n.get_KTHierarchy(depth=D)
+        else:
+            Hy = hierarchy(ham, sbi, D)
         real = dict(hsize=int(Hy.hsize), hinds=Hy.hinds.tolist(),
                     levels=Hy.levels.tolist(),
                     levlengths=Hy.levlengths.tolist(),
